@@ -12,6 +12,30 @@ type ssaFn = ssa.Function
 
 func debugDump(w *World, what string, args []string) {
 	switch what {
+	case "nilderef":
+		r := NewReport("C02", "quick", "/tmp/dbg")
+		r.W = w
+		var entries []*ssa.Function
+		for _, n := range c02Entries {
+			if fn := w.Func(n); fn != nil {
+				entries = append(entries, fn)
+			}
+		}
+		var fns []*ssa.Function
+		for fn := range w.libReach(entries) {
+			fns = append(fns, fn)
+		}
+		RunNilDeref(w, r, newBoundsRun(w), fns)
+		ok, bad := 0, 0
+		for _, o := range r.Obls {
+			if o.Status == StOK {
+				ok++
+			} else {
+				bad++
+				fmt.Println(o.Pos, o.Key)
+			}
+		}
+		fmt.Println("proved", ok, "unproven", bad)
 	case "ctlbounds":
 		cw, err := controlWorld("/verif")
 		if err != nil {
